@@ -15,7 +15,7 @@ META = {
                    "Outputter.load, the instance loop, the formatters and _validate_instance are the real code; stdout/stderr are counting "
                    "writers; the exit status, the number of diagnostics and of success headers are compared with what the states imply and "
                    "with the library's own error count",
-    "bounds": {"instances": "0..3 (quick) / 0..5 (thorough) per run, each in one of 5 states", "schema states": 4, "modes": "plain, pretty, "
+    "bounds": {"instances": "1..3 (quick) / 1..4 (thorough) per run, each in one of 6 states", "schema states": 4, "modes": "plain, pretty, "
                "custom --error-format, explicit --validator, --base-uri with a file reference, stdin"},
     "outside": ["the OS process boundary (python -m jsonschema; one concrete smoke run)", "argparse itself beyond parse_args' own rules"],
     "stubs": ["open() in jsonschema.cli, stdin, urlopen for --base-uri"],
@@ -184,7 +184,7 @@ def parse_rules():
 
 def conditions(tier, seed, active):
     out = []
-    nmax = 3 if tier == "quick" else 5
+    nmax = 3 if tier == "quick" else 4          # 6 states per instance: 6**4 = 1296 state vectors per condition at most
     for ss in (0, 1, 2, 3, 4):
         for pretty in (False, True):
             for n in range(1, nmax + 1):
@@ -192,7 +192,7 @@ def conditions(tier, seed, active):
                     continue
                 tags = ["exit1"] if ss < 3 else ["exit0", "exit1"]
                 out.append(dict(id="run/schema%d/%s/n%d" % (ss, "pretty" if pretty else "plain", n), module=__name__, factory="run",
-                                params=dict(schema_state=ss, n=n, pretty=pretty), timeout=900, tags=tags, witness=tags if n <= 2 else []))
+                                params=dict(schema_state=ss, n=n, pretty=pretty), timeout=900 if n <= 3 else 3000, tags=tags, witness=tags if n <= 2 else []))
     for mode in ("custom-format", "explicit-validator", "stdin", "explicit-validator-d4-schema", "explicit-validator-other-dialect"):
         for n in ((1, 2) if mode != "stdin" else (1,)):
             tags = ["exit0", "exit1"]
